@@ -193,6 +193,7 @@ class Merger(object):
     def write_channel_data(self):
         """Write channel-dependent data, and register self.channel_offsets."""
         self.channel_offsets = []
+        self.channel_index_offsets = []
         channel_probes = []
         channel_maps_l = _load_multiple_files('channel_map.npy', self.subdirs)
         # TODO if needed: channel_shanks.npy
@@ -200,6 +201,7 @@ class Merger(object):
         for ind, array in enumerate(channel_maps_l):
             array += offset
             self.channel_offsets.append(offset)
+            self.channel_index_offsets.append(sum(a.size for a in channel_maps_l[:ind]))
             offset = array.max()
             channel_probes.append(array * 0 + ind)
         channel_maps = _concat(channel_maps_l, axis=0)
@@ -252,15 +254,15 @@ class Merger(object):
             # 'templates_ind.npy',  # HACK: do not copy this array (which is trivial with 0 1 2 3..
             # on each row),
             # the templates.npy file is really dense in KS2 and should stay this way
-            'pc_feature_ind.npy',
-            'template_feature_ind.npy',
+            ('pc_feature_ind.npy', self.channel_index_offsets),
+            ('template_feature_ind.npy', self.template_offsets),
         ]
 
-        for fn in template_data:
+        for fn, offsets in template_data:
             arrays = _load_multiple_files(fn, self.subdirs)
-            # For ind arrays, we need to take into account the channel offset.
-            for array, offset in zip(arrays, self.channel_offsets):
-                array += offset
+            # Channel (resp. template) indices are shifted by the number of channels
+            # (resp. templates) of the preceding probes.
+            arrays = [array.astype(np.int64) + offset for array, offset in zip(arrays, offsets)]
             concat = _concat(arrays, axis=0).astype(np.uint32)
             self._save(fn, concat)
 
